@@ -2,7 +2,7 @@
 import re
 
 from .. import collector, panics, spsc
-from ..core import Prov, callee_is, has_origin, origin_strs, root_local, sites_star, bool_cond_edges
+from ..core import Prov, callee_is, has_origin, origin_strs, passes_downcast, root_local, sites_star, bool_cond_edges
 
 LOCK_RX = r"lock_api::mutex::Mutex::<R, T>::lock$|std::sync::(poison::)?mutex::Mutex::<T>::lock$|lock_api::rwlock::RwLock::<R, T>::(read|write)$"
 BLOCK_RX = (r"std::thread::(functions::)?(sleep|park|park_timeout|yield_now)$|Condvar::wait\w*$|JoinHandle::<T>::join$|"
@@ -210,7 +210,7 @@ def rule_tls(ctx, facts, inv):
             users = []
             for cb in fn.calls():
                 for a in fn.term(cb)["args"][:1]:
-                    if a["k"] in ("move", "copy") and root_local(fn, a)[0] == dest and not root_local(fn, a)[1]:
+                    if a["k"] in ("move", "copy") and root_local(fn, a)[0] == dest and not passes_downcast(fn, a):
                         users.append(fn.term(cb)["callee"])      # the Result itself, not the payload taken out of a matched Ok(..)
             matched = any((fn.switch_info(sb) or {}).get("kind") == "discr" and fn.switch_info(sb)["place"]["l"] == dest
                           for sb in range(len(fn.blocks)))
